@@ -258,7 +258,7 @@ def main(tier, replay=None):
     if replay:
         return do_replay(replay, ucg, base)
     cfgs = ["c16_q1", "c16_q2"] if tier == "quick" else ["c16_q1", "c16_q2", "c16_t1"]
-    budget = 330 if tier == "quick" else 2500
+    budget = 240 if tier == "quick" else 2500
     opendevs = B.open_deviations() & DEVS
     states = trans = 0
     cmds = []
